@@ -2189,7 +2189,12 @@ func ruleClosedFirst(r *Run, rule string, fn *ssa.Function, recv string) {
 	r.Analysed(name)
 	c := NewCanon(w)
 	site := w.Pos(fn.Pos()) + " " + name
+	sentinelHook = func(g *ssa.Global) bool { return isSentinelError(w, g) }
 	test, okErr, locked := closedTest(w, fn, recv)
+	if test != nil && !okErr {
+		// the test inlined from a helper: its error travels through a result variable to the caller's own return
+		okErr = allPathsFail(test.Block().Succs[0])
+	}
 	if test == nil {
 		// the test extracted into a method of the same receiver whose error is returned at once:
 		// if err := s.errIfClosed(); err != nil { return …, err }
